@@ -7,6 +7,7 @@ Tie: the property's own quantifier — bounded-exhaustive (command x arity x adv
 executors with hook H2 recording; every outcome is compared with the total Lean model, so PANIC / HANG / nil replies, wrong replies and
 unbalanced locks are all mismatches; then the same vectors' survivors: later commands on the same and other keys still answer."""
 import itertools
+import os
 import random
 
 from .. import core, execgen, execsuite, facts
@@ -153,7 +154,45 @@ def run(R, ctx):
                                      summary="index-safety obligation of Props/C04Sites no longer holds for the regenerated source facts: " + "; ".join(msgs)[:700] +
                                              " — no crashing vector found (enumeration + %d command(s) targeted: %s)" % (len(aimed), ",".join(aimed) or "none is a registered executor")),
                     found_input=False)
+    if R.tier == "thorough":
+        churn(R)
     R.extra["enumeration"] = dict(commands=len(commands), vectors=len(vecs), alphabet=len(ALPHA), keys=len(KEYS), exhaustive_arity_le=2, exhaustive=False)
+
+
+def churn(R):
+    """thorough tier: the real server binary under connection churn (harness engine `churn`): clients that connect and go away at once, half commands,
+    unread replies, resets; the process must not exit, steady connections keep being served, a fresh connection is served afterwards"""
+    import json
+    from .. import clustersuite
+    binary, err = core.build_harness()
+    if binary is None:
+        return
+    with core.Workdir() as wd0:
+        wd = wd0.lower()            # config.Parse lower-cases logdir; mkdtemp names are mixed case
+        os.makedirs(wd, exist_ok=True)
+        server, err, dt = clustersuite.build_server(wd)
+        R.oblige("the real server builds from the repository working tree (go build -tags verif .)", "build", server is not None, err or "%.1fs" % dt)
+        if server is None:
+            return
+        reports = []
+        for k in range(4):
+            env = core.goenv()
+            if k % 2:
+                env["VERIF_CHURN_PIN"] = str(k)       # all server threads on one cpu
+            rc, so, se, dt = core.run([binary, "churn", server, wd, str(R.seed * 10 + k), "4000", "16"], env=env, timeout=300)
+            for l in so.split("\n"):
+                if l.strip().startswith("{"):
+                    reports.append(json.loads(l))
+        if wd != wd0:
+            import shutil
+            shutil.rmtree(wd, ignore_errors=True)
+    bad = [r for r in reports if r.get("result") != "ok"]
+    R.oblige("churn: the server process survives %d short-lived connections (gone before / during / after a command, orderly and reset) and keeps serving"
+             % sum(r.get("connections", 0) for r in reports), "exploration", len(reports) == 4 and not bad, "; ".join(r.get("detail", "")[:200] for r in bad))
+    R.extra["churn"] = [dict(connections=r.get("connections"), steady_commands=r.get("steady_commands"), result=r.get("result"), seconds=round(r.get("seconds", 0), 1)) for r in reports]
+    for r in bad[:1]:
+        R.violation("churn-" + r.get("result", "x"), dict(kind="impl-violates-spec", engine="churn", summary=("connection churn: " + r.get("result", "") + ": " + r.get("detail", ""))[:900],
+                                                        report=r, explanation="the server process died or stopped serving under connection churn"))
 
 
 def replay(R, payload):
